@@ -484,13 +484,14 @@ func init() {
 		Flavours: releaseThenGo126,
 		Required: []string{"write/inside", "write/last-byte", "write/at-end", "write/beyond-end", "write/truncated", "write/empty-buffer", "writeat/at-or-beyond-end", "writeat/truncated", "writeat/ends-exactly-at-limit",
 			"writeat/negative-offset", "seek/whence=0", "seek/whence=1", "seek/whence=2", "seek/invalid-whence", "seek/before-start", "seek/beyond-end", "fault/hit-in-Write", "fault/hit-in-WriteAt", "fault/late-error-style",
-			"section/n=0", "attowriter", "write-after-seek", "write-after-partial-write"},
+			"section/n=0", "attowriter", "write-after-seek", "write-after-partial-write", "section/ends-at-MaxInt64", "writeat/offset=MaxInt64"},
 		Families: func(c *mon.Config) []mon.Family {
 			reps := c.Pick(80, 12000)
 			return []mon.Family{
 				{Name: "enumerated-faults", N: len(plans) * reps, Run: func(w *mon.W, idx int) { c18History(w, plans[idx%len(plans)], idx) }},
 				{Name: "large-sections", N: c.Pick(10000, 1500000), Run: c18Large},
 				{Name: "at-to-writer", N: c.Pick(6000, 600000), Run: c18AtToWriter},
+				{Name: "near-maxint64", N: c.Pick(3000, 300000), Run: c18NearMax},
 			}
 		},
 	})
@@ -653,5 +654,71 @@ func c18AtToWriter(w *mon.W, idx int) {
 	c.finish(w, h)
 	w.Sample(func() interface{} {
 		return mon.D{"AtToWriter_offset": off, "fault": dev.fault.String(), "history": c.hist, "bytes_in_device": len(dev.image)}
+	})
+}
+
+// c18NearMax: sections that end at or just below MaxInt64 (AtToWriter's own limit) - Write requests
+// crossing that end, WriteAt at relative offsets up to MaxInt64. Seeks stay inside [0, n] so that no
+// position beyond the end (which would not fit an int64) is ever asked for.
+func c18NearMax(w *mon.W, idx int) {
+	r := w.Rng
+	n := []int64{0, 1, 8, 29}[idx%4]
+	d := []int64{0, 0, 1, 5}[(idx/4)%4]
+	base := math.MaxInt64 - n - d
+	c := c18NewMon(w, c18Plan{base: base, n: n})
+	if d == 0 {
+		w.Bucket("section/ends-at-MaxInt64")
+	}
+	h := gen.Hash64(0x7fff, uint64(n), uint64(d))
+	for k := 1 + r.Intn(14); k > 0; k-- {
+		switch r.Intn(4) {
+		case 0, 1:
+			room := c.limit - c.cursor
+			ln := r.Pick(0, 1, int(room), int(room)+1, int(room)+9, r.Intn(int(n)+12))
+			if ln < 0 {
+				ln = 0
+			}
+			h = gen.Hash64(h, 1, uint64(ln))
+			if !c.Write(ln) {
+				return
+			}
+		case 2:
+			off := []int64{0, n - 1, n, n + 1, math.MaxInt64, math.MaxInt64 - base, math.MaxInt64 - base + 1, math.MaxInt64 - 1, int64(r.Intn(int(n) + 2))}[r.Intn(9)]
+			if off < 0 {
+				off = 0
+			}
+			if off == math.MaxInt64 {
+				w.Bucket("writeat/offset=MaxInt64")
+			}
+			ln := r.Pick(0, 1, 9, 40)
+			h = gen.Hash64(h, 2, uint64(off), uint64(ln))
+			if !c.WriteAt(ln, off) {
+				return
+			}
+		default:
+			pos := int64(r.Intn(int(n) + 1))
+			h = gen.Hash64(h, 3, uint64(pos))
+			switch r.Intn(3) {
+			case 0:
+				if !c.Seek(pos, io.SeekStart) {
+					return
+				}
+			case 1:
+				if !c.Seek(pos-n, io.SeekEnd) {
+					return
+				}
+			default:
+				if !c.Seek(pos-(c.cursor-c.base), io.SeekCurrent) {
+					return
+				}
+			}
+		}
+	}
+	if !c.final() {
+		return
+	}
+	c.finish(w, h)
+	w.Sample(func() interface{} {
+		return mon.D{"section_base": "MaxInt64 - " + fmt.Sprint(n+d), "section_len": n, "history": c.hist}
 	})
 }
